@@ -34,7 +34,7 @@ var c06cfgs = []c06cfg{{false, false}, {false, true}, {true, false}, {true, true
 
 // c06Values: values variables take when a random text happens to compile
 // (scalars of every supported type, lists, nil).
-var c06Values = []interface{}{true, int64(1), "s", []int64{1}, []string{"a"}, nil, false, int64(0),
+var c06Values = []interface{}{true, int64(1), "s", []int64{1}, []string{"a"}, nil, false, int64(0), int64(1 << 32), int64(-1 << 63), int64(-1),
 	map[string]struct{}{"a": {}}, map[string]struct{}{"b": {}}, map[int64]struct{}{1: {}}} // pre-built sets (what `in` accepts)
 
 type c06worker struct {
@@ -452,7 +452,7 @@ func c06(r *rep.Run) {
 			names = append(names, n)
 		}
 		sort.Strings(names)
-		atoms := []string{"x", "1", "\"s\"", "(1 2)", "true"}
+		atoms := []string{"x", "1", "\"s\"", "(1 2)", "true", "4294967296", "-9223372036854775808"}
 		var texts int64
 		r.ParallelFor(len(names), func(w, i int) {
 			name := names[i]
